@@ -84,7 +84,7 @@ package fontscan
 //@   ensures [prefix] rid(result) == rid(candidates0) && off(result) == off(candidates0) && len(result) <= len(candidates0)
 //@   ensures [all-match] forall(k, 0, len(result), stretchOf(fs, result, k) == stretch)
 //@   ensures [subset] forall(k, 0, len(result), exists(j, 0, len(candidates0), result[k] == old(candidates0[j])))
-//@   ensures [local-complete] forall(j, 0, len(candidates0), implies(old(stretchOf(fs, candidates0, j)) == stretch, exists(k, 0, len(result), result[k] == old(candidates0[j]))))
+//@   ensures [complete] forallT(j, 0, len(candidates0), mark(j), implies(old(stretchOf(fs, candidates0, j)) == stretch, exists(k, 0, len(result), mark(k) && result[k] == old(candidates0[j]))))
 //@   ensures [nonempty] implies(exists(j, 0, len(candidates0), old(stretchOf(fs, candidates0, j)) == stretch), len(result) > 0)
 //@   ensures [valid] validIdx(fs, result)
 //@   modifies candidates[:]
@@ -100,7 +100,7 @@ package fontscan
 //@   ensures [prefix] rid(result) == rid(candidates0) && off(result) == off(candidates0) && len(result) <= len(candidates0)
 //@   ensures [all-match] forall(k, 0, len(result), styleOf(fs, result, k) == style)
 //@   ensures [subset] forall(k, 0, len(result), exists(j, 0, len(candidates0), result[k] == old(candidates0[j])))
-//@   ensures [local-complete] forall(j, 0, len(candidates0), implies(old(styleOf(fs, candidates0, j)) == style, exists(k, 0, len(result), result[k] == old(candidates0[j]))))
+//@   ensures [complete] forallT(j, 0, len(candidates0), mark(j), implies(old(styleOf(fs, candidates0, j)) == style, exists(k, 0, len(result), mark(k) && result[k] == old(candidates0[j]))))
 //@   ensures [nonempty] implies(exists(j, 0, len(candidates0), old(styleOf(fs, candidates0, j)) == style), len(result) > 0)
 //@   ensures [valid] validIdx(fs, result)
 //@   modifies candidates[:]
@@ -116,7 +116,7 @@ package fontscan
 //@   ensures [prefix] rid(result) == rid(candidates0) && off(result) == off(candidates0) && len(result) <= len(candidates0)
 //@   ensures [all-match] forall(k, 0, len(result), weightOf(fs, result, k) == weight)
 //@   ensures [subset] forall(k, 0, len(result), exists(j, 0, len(candidates0), result[k] == old(candidates0[j])))
-//@   ensures [local-complete] forall(j, 0, len(candidates0), implies(old(weightOf(fs, candidates0, j)) == weight, exists(k, 0, len(result), result[k] == old(candidates0[j]))))
+//@   ensures [complete] forallT(j, 0, len(candidates0), mark(j), implies(old(weightOf(fs, candidates0, j)) == weight, exists(k, 0, len(result), mark(k) && result[k] == old(candidates0[j]))))
 //@   ensures [nonempty] implies(exists(j, 0, len(candidates0), old(weightOf(fs, candidates0, j)) == weight), len(result) > 0)
 //@   ensures [valid] validIdx(fs, result)
 //@   modifies candidates[:]
@@ -143,4 +143,10 @@ package fontscan
 //@   ensures [one-style] forall(k, 0, len(result), styleOf(fs, result, k) == styleOf(fs, result, 0))
 //@   ensures [one-weight] forall(k, 0, len(result), weightOf(fs, result, k) == weightOf(fs, result, 0))
 //@   ensures [exact-stretch] implies(exists(j, 0, len(candidates0), old(stretchOf(fs, candidates0, j)) == qStretch(query0)), forall(k, 0, len(result), stretchOf(fs, result, k) == qStretch(query0)))
+//@   ensures [exact-triple] implies(exists(j, 0, len(candidates0), mark(j) && old(stretchOf(fs, candidates0, j)) == qStretch(query0) && old(styleOf(fs, candidates0, j)) == qStyle(query0) && old(weightOf(fs, candidates0, j)) == qWeight(query0)),
+//@     | forall(k, 0, len(result), stretchOf(fs, result, k) == qStretch(query0) && styleOf(fs, result, k) == qStyle(query0) && weightOf(fs, result, k) == qWeight(query0)))
+//@   assert_at call matchStyle#1 : [witness1] implies(exists(j, 0, len(candidates0), mark(j) && old(stretchOf(fs, candidates0, j)) == qStretch(query0) && old(styleOf(fs, candidates0, j)) == qStyle(query0) && old(weightOf(fs, candidates0, j)) == qWeight(query0)),
+//@     | matchingStretch == qStretch(query0) && exists(k, 0, len(candidates), mark(k) && styleOf(fs, candidates, k) == qStyle(query0) && weightOf(fs, candidates, k) == qWeight(query0)))
+//@   assert_at call matchWeight#1 : [witness2] implies(exists(j, 0, len(candidates0), mark(j) && old(stretchOf(fs, candidates0, j)) == qStretch(query0) && old(styleOf(fs, candidates0, j)) == qStyle(query0) && old(weightOf(fs, candidates0, j)) == qWeight(query0)),
+//@     | matchingStretch == qStretch(query0) && matchingStyle == qStyle(query0) && exists(k, 0, len(candidates), mark(k) && weightOf(fs, candidates, k) == qWeight(query0)))
 //@   modifies candidates[:]
